@@ -58,7 +58,7 @@ class Job:
                  config='le', loop_contracts=None, owners=None, clause_map=None,
                  timeout=600, solver=None, extra_cbmc=(), extra_cc=(), canary=True,
                  function=None, kind='', replay=None, bounded=None, includes=(), ignore_funcs=(),
-                 assumptions=(), unwindset=None, no_dfcc=False, obj_bits=None, chunk=None, chunk_par=1, unwind=None, fallback=None, no_unwinding_assertions=False, probes=()):
+                 assumptions=(), unwindset=None, no_dfcc=False, obj_bits=None, chunk=None, chunk_par=1, unwind=None, fallback=None, no_unwinding_assertions=False, probes=(), ignore_unwind=False):
         self.name = name
         self.src = src                  # text of the harness translation unit
         self.sources = list(sources)    # repository sources (relative to REPO) compiled in unmodified
@@ -89,6 +89,7 @@ class Job:
         self.chunk = chunk              # solve the CBMC properties in groups of this size with --slice-formula
         self.fallback = fallback        # Job (or callable returning one) to run when this obligation cannot be BUILT on the current tree
         self.no_unwinding_assertions = no_unwinding_assertions   # bounded stand-in that deliberately cuts a non-terminating loop
+        self.ignore_unwind = ignore_unwind   # boundary probe: hitting the unwinding bound gives no information and is not a result
         self.probes = list(probes)      # extra bounded runs of a FALLBACK: only their real (non-unwinding) failures count
         self.fallback_of = None         # set on the fallback job actually run: (name of the primary, reason)
 
@@ -292,7 +293,19 @@ RESOURCE = ('solver failure', 'Out of memory', 'out-of-memory', 'unexpected resp
 _FB_LOCK = threading.Lock()
 
 
+# obligations that are solved in chunks are the memory-hungry ones (8-byte VSS array encoders: every chunk is a multi-GB CBMC
+# process): at most two of them run at a time, otherwise the kernel kills CBMC processes (rc -9) while 16 obligations run side by side
+_HEAVY = threading.Semaphore(2)
+
+
 def run_job(job, workroot, keep=False):
+    if job.chunk:
+        with _HEAVY:
+            return _run_job_outer(job, workroot, keep)
+    return _run_job_outer(job, workroot, keep)
+
+
+def _run_job_outer(job, workroot, keep=False):
     if os.environ.get('VERIF_FORCE_FALLBACK') and job.fallback is not None:
         res = JobResult(job)          # self-test of the fallbacks on a tree where the primaries can be built
         res.reason = 'goto-cc failed: (forced by VERIF_FORCE_FALLBACK)'
@@ -631,6 +644,8 @@ def _run_job_once(job, workroot, keep=False):
         if not any(p.cls == 'loop' for p in res.props):
             res.reason = 'loop contract silently dropped (no loop_invariant obligations)'
             return res
+    if job.ignore_unwind:
+        res.props = [p for p in res.props if p.cls != 'unwind']
     undef = [p for p in res.props if p.cls == 'undefined' and p.status == 'FAILURE']
     if undef:
         # DFCC turns a call to a function that has neither a body nor a contract in this obligation into an assertion; that says
